@@ -212,6 +212,10 @@ def run(case):
         xs = [x for x in names if key_of[x] == "x"]
         if xs:
             v[xs[0]] = cx + t["sep"] - 0.05     # first sphere moved onto the second
+    for x in names:
+        # a noise level is a positive number: keep the evaluated value inside the likelihood's domain
+        if key_of[x] == "noise" and v[x] <= 0:
+            v[x] = 1e-3
     vec = [v[x] for x in names]
     # ---- reference log-prior
     ref_prior = sum(ref_lnprob(descs[key_of[x]], v[x]) for x in names)
